@@ -255,6 +255,75 @@ history_prop!(
     |it: &Interp| it.max_depth >= 256
 );
 
+/// Marathon games: 1030..1300 quiet-biased plies from the initial position (the interpreter
+/// forces a pawn move or capture before the clock would pass what a legal game allows).
+fn marathon() -> BoxedStrategy<History> {
+    prop::collection::vec(
+        prop_oneof![
+            12 => any::<u16>().prop_map(Op::Quiet),
+            1 => any::<u16>().prop_map(Op::Special),
+        ],
+        1030..1300,
+    )
+    .prop_map(|ops| History {
+        fen: STANDARD[0].1.to_string(),
+        ops,
+    })
+    .boxed()
+}
+
+history_prop!(
+    C04Marathon,
+    "C04/marathon",
+    Which {
+        undo: true,
+        ..Which::default()
+    },
+    marathon(),
+    160,
+    3_000,
+    |it: &Interp| it.max_depth >= 1024
+);
+
+history_prop!(
+    C05Marathon,
+    "C05/marathon",
+    Which {
+        key: true,
+        ..Which::default()
+    },
+    marathon(),
+    160,
+    3_000,
+    |it: &Interp| it.max_depth >= 1024
+);
+
+history_prop!(
+    C12Marathon,
+    "C12/marathon",
+    Which {
+        invariants: true,
+        ..Which::default()
+    },
+    marathon(),
+    160,
+    3_000,
+    |it: &Interp| it.max_depth >= 1024
+);
+
+history_prop!(
+    C16Marathon,
+    "C16/marathon",
+    Which {
+        clocks: true,
+        ..Which::default()
+    },
+    marathon(),
+    160,
+    3_000,
+    |it: &Interp| it.max_depth >= 1024
+);
+
 // ------------------------------------------------------------------------------ C05 (history part)
 
 history_prop!(
